@@ -146,12 +146,16 @@ def generate(rng, tier):
                      rdesc=glistdesc(rng, nr), pdesc=glistdesc(rng, nc), measure=rng.choice([None, 'euclidean', 'crossnobis', gstr(rng)]),
                      ops=[rng.choice(['subset_pattern', 'subsample_pattern', 'sort_pattern', 'append', 'concat', 'reorder', 'getitem', 'copy', 'transform'])
                           for _ in range(rng.choice([0, 0, 1, 2, 3]))])
+            if rng.random() < 0.12:      # objects with a zero-length axis (seeded change C16-m6): no RDM left / a single condition
+                c['ops'].append(rng.choice(['subset_none', 'one_condition']))
         elif kind in ('dataset', 'temporal'):
             no, nch, nt = rng.randint(2, 5), rng.randint(1, 4), rng.randint(2, 4)
             shape = (no, nch) if kind == 'dataset' else (no, nch, nt)
             c.update(shape=list(shape), v=[gnum(rng) for _ in range(int(np.prod(shape)))], desc=gdesc(rng), odesc=glistdesc(rng, no),
                      cdesc=glistdesc(rng, nch), tdesc=glistdesc(rng, nt),
                      ops=[rng.choice(['subset_obs', 'sort_obs', 'subset_channel', 'copy']) for _ in range(rng.choice([0, 0, 1, 2]))])
+            if rng.random() < 0.12:      # a selection that matches nothing: zero observations
+                c['ops'].append('subset_none')
         elif kind == 'model':
             nc = rng.randint(3, 5)
             cls = rng.choice(['ModelFixed', 'ModelSelect', 'ModelWeighted', 'ModelInterpolate'])
@@ -216,6 +220,10 @@ def one_rdms_op(r, op, rs):
             r = r.copy()
         elif op == 'transform':
             r = positive_transform(r)
+        elif op == 'subset_none':
+            r = r.subset('index', -5)
+        elif op == 'one_condition':
+            r = r.subset_pattern('index', [r.pattern_descriptors['index'][0]])
     return r
 
 
@@ -239,6 +247,9 @@ def build_dataset(c):
         elif op == 'sort_obs' and d.obs_descriptors:
             d = d.copy()
             d.sort_by(sorted(d.obs_descriptors)[0])
+        elif op == 'subset_none':
+            d = d.subset_obs('index', -5) if 'index' in d.obs_descriptors else d.subset_obs(
+                sorted(d.obs_descriptors)[0], '\x00absent') if d.obs_descriptors else d
         elif op == 'subset_channel' and d.channel_descriptors:
             k = sorted(d.channel_descriptors)[0]
             d = d.subset_channel(k, d.channel_descriptors[k][0])
